@@ -36,9 +36,12 @@ def Rq(R):
     return [[Fraction(float(R[i][j])) for j in range(3)] for i in range(3)]
 IDENT = [[Fraction(int(i == j)) for j in range(3)] for i in range(3)]
 
-def call(pdb2sql, route, decoy, ref, enforce, method='svd', check=True, zonefile=None, cutoff=None, names=None):
-    """run one routine; returns (result, recorded matrices). result = ['OK', thousandths] | ['ERR', class]"""
+def call(pdb2sql, route, decoy, ref, enforce, method='svd', check=True, zonefile=None, cutoff=None, names=None, flagcar=None):
+    """run one routine; returns (result, recorded matrices). result = ['OK', thousandths] | ['ERR', class]
+    flagcar: the boolean arguments carried by NumPy booleans ('npbool') or 0/1 integers ('int01')"""
     import io, contextlib
+    if flagcar == 'npbool': enforce, check = np.bool_(enforce), np.bool_(check)
+    elif flagcar == 'int01': enforce, check = int(enforce), int(check)
     sim = pdb2sql.StructureSimilarity(decoy, ref, enforce_residue_matching=enforce)
     with Recorder() as rec, contextlib.redirect_stdout(io.StringIO()):
         try:
